@@ -160,14 +160,22 @@ def cli_scope(res, pid, rng, tier):
                 vals = ["", ""]
             if name == "salt" and rng.random() < 0.3:
                 vals = ["", rng.choice(["", "s2"])]         # an empty salt is a salt
+            elif name in ("salt", "words", "asn", "reserved") and rng.random() < 0.12:
+                vals = ["@" + v_ for v_ in vals]            # a value that starts with `@` is a value (not a file of further arguments)
             rng.shuffle(vals)
             assign[name] = (src, vals)
         cases.append(assign)
     for ci, assign in enumerate(cases):
         argv, cfg, line = build(assign, style=rng if ci % 2 else None)
-        if any(v == "" for v in argv) and False:
-            continue
-        sess.op(line, lambda argv=argv, cfg=cfg: impl_outcome(argv, cfg), {"argv": argv, "config_file": cfg})
+        if ci % 3 == 0:
+            # the log level is no part of the contract: the same decision and the same parameters at every level
+            argv = argv + rng.choice([["-l", "DEBUG"], ["--log-level", "DEBUG"], ["-l", "WARNING"], ["--log-level=ERROR"], ["-l", "INFO"]])
+        hbv = assign.get("hostbits")
+        # conservatively: required options present, every host-bits value well-formed, no empty value anywhere (configargparse refuses
+        # an empty `key=` line, see DESIGN I.6)
+        meta_ok = ("input" in assign and "output" in assign and not any(v_ == "" for _, vs_ in assign.values() for v_ in vs_)
+                   and (hbv is None or all(v_.isdigit() and v_.isascii() and int(v_) <= 32 for v_ in hbv[1])))
+        sess.op(line, lambda argv=argv, cfg=cfg: impl_outcome(argv, cfg), {"argv": argv, "config_file": cfg, "argparse_should_accept": meta_ok})
         res.nt(line[:80])
     dis = sess.finish()
     res.evaluations += len(sess.lines)
@@ -175,6 +183,9 @@ def cli_scope(res, pid, rng, tier):
     # the property's oracle on the implementation's outcomes
     for line, out, meta in zip(sess.lines, sess.impl, sess.meta):
         has = lambda n: (" %s:" % n) in (" " + line)  # noqa
+        if out == "reject argparse" and meta.get("argparse_should_accept"):
+            fails.append({"kind": "a well-formed command line (required options present, host bits in range) was refused by the parser",
+                          "argv": meta["argv"], "config_file": meta["config_file"], "outcome": out})
         if out.startswith("call"):
             f = dict(x.split("=", 1) for x in out.split(" ")[1:])
             bad = None
